@@ -277,6 +277,123 @@ impl System for GrammarSys {
 }
 
 // ---------------------------------------------------------------------------------------------
+// two channels at once: one real scanner, one grammar generator per channel
+// ---------------------------------------------------------------------------------------------
+
+#[derive(Clone, PartialEq, Debug)]
+pub enum PairAct {
+    A(GAct),
+    B(GAct),
+    Tick,
+}
+
+#[derive(Clone)]
+pub struct PairState {
+    pub sc: PollingParameterNumberMessageScanner,
+    pub now: u64,
+    pub ga: G,
+    pub gb: G,
+}
+
+/// Every interleaving of two per-channel sentences of the documented grammar (with polls and
+/// time) through ONE real scanner: per channel the reports must be exactly the intended ones.
+pub struct GrammarPair {
+    pub a: GrammarSys,
+    pub b: GrammarSys,
+}
+
+impl GrammarPair {
+    pub fn new(ca: u8, cb: u8, timeout: u64, va: &[u8], vb: &[u8]) -> Self {
+        let mut a = GrammarSys::new(ca, timeout, va);
+        let mut b = GrammarSys::new(cb, timeout, vb);
+        a.others.truncate(2);
+        b.others.truncate(1);
+        GrammarPair { a, b }
+    }
+}
+
+impl System for GrammarPair {
+    type State = PairState;
+    type Action = PairAct;
+    type Key = (u128, G, G);
+
+    fn pid(&self) -> String {
+        "C12".to_string()
+    }
+    fn name(&self) -> String {
+        format!("PollingParameterNumberMessageScanner x grammar generators on TWO channels [a={}, b={}, timeout={}]", self.a.ch, self.b.ch, self.a.tname())
+    }
+    fn init(&self) -> PairState {
+        let i = self.a.init();
+        PairState { sc: i.sc, now: 0, ga: G::Start, gb: G::Start }
+    }
+    fn actions(&self, s: &PairState, out: &mut Vec<PairAct>) {
+        let mut tmp = Vec::new();
+        self.a.actions(&GState { sc: s.sc, now: s.now, g: s.ga }, &mut tmp);
+        for x in tmp.drain(..) {
+            if x != GAct::Tick {
+                out.push(PairAct::A(x));
+            }
+        }
+        self.b.actions(&GState { sc: s.sc, now: s.now, g: s.gb }, &mut tmp);
+        for x in tmp.drain(..) {
+            if x != GAct::Tick {
+                out.push(PairAct::B(x));
+            }
+        }
+        out.push(PairAct::Tick);
+    }
+    fn step(&self, s: &PairState, a: &PairAct) -> Step<PairState> {
+        match a {
+            PairAct::Tick => Step { next: Some(PairState { sc: s.sc, now: s.now + 1, ga: s.ga, gb: s.gb }), obs: 0, violations: Vec::new() },
+            PairAct::A(x) => {
+                let r = self.a.step(&GState { sc: s.sc, now: s.now, g: s.ga }, x);
+                Step { next: r.next.map(|n| PairState { sc: n.sc, now: n.now, ga: n.g, gb: s.gb }), obs: r.obs, violations: r.violations }
+            }
+            PairAct::B(x) => {
+                let r = self.b.step(&GState { sc: s.sc, now: s.now, g: s.gb }, x);
+                Step { next: r.next.map(|n| PairState { sc: n.sc, now: n.now, ga: s.ga, gb: n.g }), obs: r.obs, violations: r.violations }
+            }
+        }
+    }
+    fn key(&self, s: &PairState) -> (u128, G, G) {
+        let ka = self.a.key(&GState { sc: s.sc, now: s.now, g: s.ga });
+        let kb = self.b.key(&GState { sc: s.sc, now: s.now, g: s.gb });
+        (ka.0, ka.1, kb.1)
+    }
+    fn n_classes(&self) -> usize {
+        3
+    }
+    fn class_name(&self, i: usize) -> String {
+        ["action-on-channel-a", "action-on-channel-b", "tick-1ms"][i].to_string()
+    }
+    fn class_of(&self, a: &PairAct) -> usize {
+        match a {
+            PairAct::A(_) => 0,
+            PairAct::B(_) => 1,
+            PairAct::Tick => 2,
+        }
+    }
+    fn render(&self, a: &PairAct) -> String {
+        match a {
+            PairAct::A(x) => self.a.render(x),
+            PairAct::B(x) => self.b.render(x),
+            PairAct::Tick => "tick".to_string(),
+        }
+    }
+    fn rust_preamble(&self) -> String {
+        self.a.rust_preamble()
+    }
+    fn rust_line(&self, a: &PairAct) -> String {
+        match a {
+            PairAct::A(x) => self.a.rust_line(x),
+            PairAct::B(x) => self.b.rust_line(x),
+            PairAct::Tick => "clock += 1; helgoboss_midi::verif_hooks::set_now_millis(clock);".to_string(),
+        }
+    }
+}
+
+// ---------------------------------------------------------------------------------------------
 // part two: encode -> feed -> poll after the timeout, from arbitrary prior states
 // ---------------------------------------------------------------------------------------------
 
@@ -336,7 +453,7 @@ fn message_set(c: u8, numbers: &[u16], v14: &[u16], v7: &[u16]) -> Vec<Pnm> {
 
 pub fn run_c12(chk: &Check, tier: Tier) {
     chk.rule("part 1: reachability fixpoint of the real polling scanner (mock clock; timeouts 0 and 2 ms) x a generator automaton of the documented sequence grammar (number selection in either order; MSB alone; MSB,LSB; further LSB; LSB,MSB directly after the selection; inc/dec; re-selection; early polls, late polls at unit boundaries, 1 ms ticks and non-contributing messages anywhere): on every transition the list of messages returned by feed/poll must equal the intended list. part 2: from EVERY state of the C14 observer fixpoint (arbitrary prior traffic, polls, resets, partially elapsed timeouts) x ~1000 messages x both byte orders: real encoder -> feed -> advance past the timeout -> poll must report exactly [original], optionally preceded by the one 7-bit flush the observer attributes to a pending controller-6 byte; plus four dirty prior states x per-dimension complete message sets (quick) / all messages (thorough)");
-    chk.assume("byte-value abstraction for the expansion ({0,1,127}; thorough 8 values); interleavings of several channels are covered by C15 (isolation)");
+    chk.assume("byte-value abstraction for the expansion ({0,1,127}; thorough 8 values); interleavings: every interleaving of two per-channel sentences is explored in a two-channel grammar product for a few channel pairs; more channels rest on C15 (isolation)");
     let channels: Vec<u8> = if tier.thorough() { (0..16).collect() } else { vec![0, 9, 15] };
     let v3 = [0u8, 1, 127];
     let v8 = [0u8, 1, 2, 63, 64, 85, 126, 127];
@@ -348,6 +465,15 @@ pub fn run_c12(chk: &Check, tier: Tier) {
         }
         if tier.thorough() {
             let sys = GrammarSys::new(4, t, &v8);
+            let out = xs::explore(&sys, &Limits::default());
+            engine::record(chk, &sys, &out, None);
+        }
+    }
+    // two channels at once
+    let pairs: Vec<(u8, u8)> = if tier.thorough() { vec![(0, 8), (7, 15), (3, 4), (15, 0), (9, 1), (5, 13)] } else { vec![(0, 8), (15, 7)] };
+    for &t in &[0u64, 2] {
+        for &(a, b) in &pairs {
+            let sys = if tier.thorough() { GrammarPair::new(a, b, t, &[1, 127], &[2, 0]) } else { GrammarPair::new(a, b, t, &[1], &[2]) };
             let out = xs::explore(&sys, &Limits::default());
             engine::record(chk, &sys, &out, None);
         }
